@@ -152,8 +152,8 @@ pub(crate) async fn fpre(channel: &(impl Channel + Send), parties: usize) -> Res
         for (i, (a, b)) in share.iter().enumerate() {
             for (Share(bit, Auth(macs_i)), round) in [(a, 0), (b, 1)] {
                 for (j, (mac_i, _)) in macs_i.iter().enumerate() {
-                    if *mac_i != Mac(0) {
-                        // Added when removed Option
+                    if j != i {
+                        // every MAC but the placeholder at the party's own index
                         let (a, b) = &share[j];
                         let Share(_, Auth(keys_j)) = if round == 0 { a } else { b };
                         let (_, key_j) = keys_j[i];
